@@ -26,6 +26,8 @@ CtxShapes == { [n |-> "ok", ok |-> TRUE], [n |-> "ok_default_prefix", ok |-> TRU
                [n |-> "namespaces_array", ok |-> FALSE], [n |-> "namespace_value_number", ok |-> FALSE],
                [n |-> "id_not_context", ok |-> FALSE], [n |-> "missing", ok |-> FALSE] }
 IdShapes == { [n |-> "curie", ok |-> TRUE], [n |-> "default_prefix", ok |-> TRUE], [n |-> "absolute_uri", ok |-> TRUE],
+              [n |-> "curie_colon_local", ok |-> TRUE],   \* prefix:urn:isbn:x - only the FIRST colon separates the prefix
+
               [n |-> "number", ok |-> FALSE], [n |-> "null", ok |-> FALSE], [n |-> "object", ok |-> FALSE],
               [n |-> "missing", ok |-> FALSE], [n |-> "unknown_prefix", ok |-> FALSE] }
 DelShapes == { [n |-> "absent", ok |-> TRUE], [n |-> "true", ok |-> TRUE], [n |-> "false", ok |-> TRUE],
@@ -35,9 +37,10 @@ PropShapes == { [n |-> "absent", ok |-> TRUE], [n |-> "empty", ok |-> TRUE], [n 
                 [n |-> "arrays_nested", ok |-> TRUE], [n |-> "nested_entity", ok |-> TRUE],
                 [n |-> "empty_arrays", ok |-> TRUE], [n |-> "numbers", ok |-> TRUE],
                 [n |-> "array_of_entities", ok |-> TRUE], [n |-> "unicode_escapes", ok |-> TRUE],
+                [n |-> "colon_keys", ok |-> TRUE],
                 [n |-> "array_instead_of_object", ok |-> FALSE], [n |-> "unknown_prefix_key", ok |-> FALSE] }
 RefShapes == { [n |-> "absent", ok |-> TRUE], [n |-> "empty", ok |-> TRUE], [n |-> "single", ok |-> TRUE],
-               [n |-> "array", ok |-> TRUE], [n |-> "empty_array", ok |-> TRUE], [n |-> "number_value", ok |-> FALSE], [n |-> "array_with_number", ok |-> FALSE],
+               [n |-> "array", ok |-> TRUE], [n |-> "empty_array", ok |-> TRUE], [n |-> "colon_values", ok |-> TRUE], [n |-> "number_value", ok |-> FALSE], [n |-> "array_with_number", ok |-> FALSE],
                [n |-> "object_value", ok |-> FALSE], [n |-> "unknown_prefix_value", ok |-> FALSE] }
 
 \* the order in which the keys of the entity object are written (JSON objects are unordered: all valid)
